@@ -284,6 +284,8 @@ def run(chk: Check, eng: Engine) -> None:
                     "the forecaster rebuilds the history with fresh (writable) message roots: a repair aimed at an earlier, already exchanged message rewrites it, and "
                     "Fandango continues the run against a conversation that never took place", path=gcfg.describe_path(p) if p else [], keyparts="history-unsealed")
 
+    chk.rule("R20-j", "everything the protocol evaluator collects while one message is searched is emptied when the next message starts", floor=2)
+    per_message_state_rule(chk, eng, "R20-j")
     chk.rule("R20-i", "the protocol grammar is cut down to the visible parties by removing grammar nodes by identity (messages of the same type differ in their parties only)", floor=2)
     from .c19 import node_list_identity_rule
     node_list_identity_rule(chk, eng, "R20-i")
@@ -349,6 +351,8 @@ def pair_agreement_rule(chk: Check, eng: Engine, rule: str) -> None:
         if not (isinstance(lp, ast.For) and isinstance(lp.iter, ast.Call) and call_name(lp.iter) == "zip" and isinstance(lp.target, ast.Tuple) and len(lp.target.elts) == 2
                 and all(isinstance(e, ast.Name) for e in lp.target.elts)):
             continue
+        if not any(isinstance(iff, ast.If) and any(isinstance(c, ast.Call) and call_name(c) == "set_children" for st in iff.body for c in ast.walk(st)) for iff in ast.walk(lp)):
+            continue  # not the guarded-adoption form (the filter form is handled below)
         v1, v2 = (e.id for e in lp.target.elts)  # type: ignore[union-attr]
         # locals defined from the loop variables inside the loop
         dep: dict[str, set[str]] = {v1: {v1}, v2: {v2}}
@@ -403,8 +407,107 @@ def pair_agreement_rule(chk: Check, eng: Engine, rule: str) -> None:
                         "parses that disagree with the recorded exchange in that attribute survive and are reported", keyparts="agreement-missing|" + ",".join(missing))
             else:
                 chk.ok(rule, pr.fq, iff.lineno, f"recorded and parsed message are compared in type, sender and recipient before content is adopted (`{v1}` vs `{v2}`)")
+    # the same test written as a filter over all pairs: `if not all(<pred>(a, b) for a, b in <pairs>): continue`
+    pair_names = {t.id for a in walk_local(pr.node) if isinstance(a, ast.Assign) and any(isinstance(c, ast.Call) and call_name(c) == "zip" for c in ast.walk(a.value))
+                  for t in a.targets if isinstance(t, ast.Name)}
+    for q in walk_local(pr.node):
+        if not (isinstance(q, ast.Call) and isinstance(q.func, ast.Name) and q.func.id in ("all", "any") and q.args and isinstance(q.args[0], (ast.GeneratorExp, ast.ListComp))
+                and len(q.args[0].generators) == 1):
+            continue
+        g = q.args[0].generators[0]
+        over_pairs = (isinstance(g.iter, ast.Call) and call_name(g.iter) == "zip") or (isinstance(g.iter, ast.Name) and g.iter.id in pair_names)
+        if not (over_pairs and isinstance(g.target, ast.Tuple) and len(g.target.elts) == 2 and all(isinstance(e, ast.Name) for e in g.target.elts)):
+            continue
+        n += 1
+        v1, v2 = (e.id for e in g.target.elts)  # type: ignore[union-attr]
+        test: ast.AST = q.args[0].elt
+        # a helper called with the two messages: its returned expression, in terms of its own parameters
+        if isinstance(test, ast.Call) and len(test.args) == 2 and all(isinstance(a, ast.Name) and a.id in (v1, v2) for a in test.args):
+            hname = test.func.attr if isinstance(test.func, ast.Attribute) else test.func.id if isinstance(test.func, ast.Name) else None
+            h = pf.lookup(hname) if hname else None
+            rets = [r for r in walk_local(h.node) if isinstance(r, ast.Return) and r.value is not None] if h is not None else []
+            if h is None or len(rets) != 1:
+                raise AnalysisError(f"PacketForecaster.predict: the agreement predicate `{short(test, 40)}` could not be resolved")
+            ps = [p_ for p_ in h.params() if p_ != "self"]
+            v1, v2 = ps[0], ps[1]
+            test = rets[0].value
+        if q.func.id == "any":
+            chk.bad(rule, eng.relfile(pr), q.lineno, pr.fq, f"`{short(q, 70)}`: a parse of the history is kept as soon as *one* of its messages agrees with the recorded one",
+                    "parses that disagree with the recorded exchange in another message (another sender or recipient in an alternative branch) survive, get the real contents copied in and "
+                    "are reported: messages are sent to / attributed to the wrong party", keyparts="agreement-any")
+            continue
+        conj = test.values if isinstance(test, ast.BoolOp) and isinstance(test.op, ast.And) else [test]
+        compared = set()
+        for c in conj:
+            if not (isinstance(c, ast.Compare) and len(c.ops) == 1 and isinstance(c.ops[0], ast.Eq)):
+                continue
+            l, r = set(names_in(c.left)) & {v1, v2}, set(names_in(c.comparators[0])) & {v1, v2}
+            if not ((v1 in l and v2 in r) or (v2 in l and v1 in r)) or (l == r and len(l) == 1):
+                chk.bad(rule, eng.relfile(pr), c.lineno, pr.fq, f"`{short(c, 70)}` does not compare the recorded message with the parsed one",
+                        "a parse of the history that differs from what was exchanged in this attribute is kept and reported", keyparts="agreement-one-sided|" + norm(c))
+                continue
+            lt, rt = norm(c.left), norm(c.comparators[0])
+            for attr in ("sender", "recipient"):
+                if f".{attr}" in lt and f".{attr}" in rt:
+                    compared.add(attr)
+            if ("symbol" in lt or "name()" in lt) and ("symbol" in rt or "name()" in rt):
+                compared.add("type")
+        missing = [a for a in ("type", "sender", "recipient") if a not in compared]
+        if missing:
+            chk.bad(rule, eng.relfile(pr), q.lineno, pr.fq, f"the agreement test `{short(test, 80)}` does not compare {missing} of the two messages",
+                    "parses that disagree with the recorded exchange in that attribute survive and are reported", keyparts="agreement-missing|" + ",".join(missing))
+        else:
+            chk.ok(rule, pr.fq, q.lineno, f"`{short(q, 60)}`: every pair of recorded / parsed message is compared in type, sender and recipient")
     if n == 0:
         raise AnalysisError("PacketForecaster.predict: no loop over zipped (recorded, parsed) messages that adopts content found")
+
+
+def per_message_state_rule(chk: Check, eng: Engine, rule: str) -> None:
+    """R20-j.  The protocol evaluator is re-used for every message of a session; what it collects while one message is searched (hold-back
+    candidates, the solution set, the fitness memo) refers to the history *as it was then*.  `start_next_message` must empty or re-bind every
+    container attribute that `evaluate_individual` adds to - a held-back individual of an earlier step is a whole interaction tree with an
+    outdated prefix, and `_generate_io` falls back to exactly that set."""
+    ev = eng.cls("fandango.evolution.evaluation", "IoEvaluator")
+    start = ev.methods.get("start_next_message")
+    evali = ev.lookup("evaluate_individual")
+    if start is None or evali is None:
+        raise AnalysisError("IoEvaluator.start_next_message / evaluate_individual not found")
+    GROW = {"add", "append", "extend", "update", "insert", "setdefault"}
+    written: dict[str, int] = {}
+    seen, todo = set(), [evali]
+    while todo:
+        m = todo.pop()
+        if m.fq in seen:
+            continue
+        seen.add(m.fq)
+        for x in walk_local(m.node):
+            if isinstance(x, ast.Call) and isinstance(x.func, ast.Attribute) and x.func.attr in GROW and self_attr(x.func.value):
+                written.setdefault(self_attr(x.func.value), x.lineno)
+            if isinstance(x, ast.Assign):
+                for t in x.targets:
+                    if isinstance(t, ast.Subscript) and self_attr(t.value):
+                        written.setdefault(self_attr(t.value), x.lineno)
+            if isinstance(x, ast.Call) and isinstance(x.func, ast.Attribute) and self_attr(x.func) and len(seen) < 12:
+                g = ev.lookup(x.func.attr)
+                if g is not None and g.name not in ("start_next_message",):
+                    todo.append(g)
+    reset = set()
+    for x in walk_local(start.node):
+        if isinstance(x, ast.Call) and isinstance(x.func, ast.Attribute) and x.func.attr == "clear" and self_attr(x.func.value):
+            reset.add(self_attr(x.func.value))
+        if isinstance(x, ast.Assign):
+            for t in x.targets:
+                if self_attr(t):
+                    reset.add(self_attr(t))
+    if len(written) < 2:
+        raise AnalysisError(f"IoEvaluator.evaluate_individual: only {len(written)} container attribute(s) found that grow during a message")
+    for attr, line in sorted(written.items()):
+        if attr in reset:
+            chk.ok(rule, start.fq, start.line, f"`self.{attr}` (filled by evaluate_individual, line {line}) is emptied when the next message starts")
+        else:
+            chk.bad(rule, eng.relfile(start), start.line, start.fq, f"`self.{attr}` is filled while a message is searched (line {line}) and not emptied by start_next_message",
+                    "entries of an earlier step survive: a held-back individual is a whole interaction tree whose prefix is the history of that earlier step - when the search falls back "
+                    "to the hold-back set it sends an old candidate and replaces the recorded history by the stale prefix", keyparts=f"per-message-state|{attr}")
 
 
 def scanner_index_rule(chk: Check, eng: Engine, rule: str) -> None:
@@ -491,6 +594,8 @@ _IO = "src/fandango/io/__init__.py"
 _ALG = "src/fandango/evolution/algorithm.py"
 _EV = "src/fandango/evolution/evaluation.py"
 MUTANTS = [
+    M("hold-back-set-survives-the-message", "src/fandango/evolution/evaluation.py", "        self._hold_back_solutions.clear()\n        self._solution_set.clear()\n", "        self._solution_set.clear()\n", "R20-j"),
+    M("history-filter-any-instead-of-all", "src/fandango/io/navigation/packetforecaster.py", "            for suggested_tree, is_complete in self._parser.consume(history_nts):\n", "            for suggested_tree, is_complete in self._parser.consume(history_nts):\n                if not any(r.sender == o.sender and r.recipient == o.recipient and r.msg.symbol.name()[9:] == o.msg.symbol.name()[1:] for o, r in zip(tree.protocol_msgs(), suggested_tree.protocol_msgs())):\n                    continue\n", "R20-h"),
     M("recipient-compared-with-itself", "src/fandango/io/navigation/packetforecaster.py", "                        and r_msg.recipient == orig_r_msg.recipient\n", "                        and r_msg.recipient == r_msg.recipient\n", "R20-h"),
     M("recipient-not-compared", "src/fandango/io/navigation/packetforecaster.py", "                        and r_msg.recipient == orig_r_msg.recipient\n", "", "R20-h"),
     M("sender-not-compared", "src/fandango/io/navigation/packetforecaster.py", "                        and r_msg.sender == orig_r_msg.sender\n", "", "R20-h"),
